@@ -107,9 +107,11 @@ prop("C02", [
     dict(engine="verus", unit="dhcpranges"),
     dict(engine="verus", unit="dhcpused"),
     dict(engine="verus", unit="pool", fns=["Pool::select_requested_address", "Pool::select_new_address", "Pool::select_address", "Pool::allocate_address"]),
+    dict(engine="verus", unit="dhcphandlers", fns=["handle_discover", "handle_request", "Pool::allocate_address", "Pool::select_address"]),
+    dict(engine="verus", unit="policy", fns=["check_policy", "check_policies", "apply_policy", "apply_policies"]),
     dict(engine="kani", sets=["net_subnet"]),
     dict(POOL_B, checks=["allocate_address/C02"]),
-], explanation="pool membership before every grant (allocate_address ensures), apply-subnet expansion == every host address, default addresses pool == hosts minus server minus used",
+], explanation="pool membership before every grant (allocate_address ensures; handle_discover/handle_request: yiaddr lies in the set the policies selected), which policy's set is selected (first applicable sibling: unit policy), apply-subnet expansion == every host address, default addresses pool == hosts minus server minus used",
     assumptions=["apply-range (RangeInclusive loop) NOT decided: no ghost-iterator spec in this vstd, unreachable for Kani", "YAML text -> values (yaml-rust) not under contract",
                  "the address arithmetic base == network() and get_or_insert_with glue around the slices is assumed (slice preconditions)"])
 
